@@ -231,7 +231,7 @@ def execute(plan):
                     continue
                 n = c10.norm_stub(out)
                 if n != b_norm:
-                    viol("C14.same-stub", None, site, "stub differs for the same trace set delivered by another history: %s" % c10.first_diff(n, b_norm))
+                    viol("C14.same-stub", None, site, "stub differs for the same trace set delivered by another history: %s" % c10.first_diff(n, b_norm, "only in this variant", "only in the stub of the captured database"))
         return {
             "violations": V,
             "digest": R.digest(sorted(([c01._norm_json(json.loads(x)) if isinstance(x, str) and x[:1] in "{[" else x for x in r] for r in distinct), key=lambda z: json.dumps(z, sort_keys=True)) +
